@@ -161,9 +161,9 @@ pub fn c12_fresh_counter() {
 #[test]
 fn verif_replay_entry() {
     let hn = std::env::var("VERIF_REPLAY_HARNESS").unwrap_or_default();
-    if hn == "validate_sequence" || hn == "cleanup" || hn == "batch" {
+    if hn == "validate_sequence" || hn == "cleanup" || hn == "batch" || hn == "persist" {
         let case: serde_json::Value = serde_json::from_str(&std::env::var("VERIF_REPLAY_CASE").unwrap_or_default()).expect("case json");
-        let obs = if hn == "cleanup" { driver::cleanup(&case) } else if hn == "batch" { driver::batch(&case) } else { driver::validate_sequence(&case) };
+        let obs = if hn == "persist" { driver::persist(&case) } else if hn == "cleanup" { driver::cleanup(&case) } else if hn == "batch" { driver::batch(&case) } else { driver::validate_sequence(&case) };
         println!("VERIF-OBS {}", obs);
         return;
     }
@@ -263,6 +263,50 @@ mod driver {
         Value::Object(out)
     }
 
+    /// sync_counters to a real file in a fresh temp dir, then a restart through the public constructor
+    pub fn persist(case: &Value) -> Value {
+        let users = [("other", UserId { hash: bytes32(case, "o") }), ("cand", UserId { hash: bytes32(case, "u") })];
+        let mut map = HashMap::new();
+        for (label, uid) in &users {
+            if let Some(c) = slot_counter(case, &format!("M@{label}")) {
+                map.insert(uid.clone(), c);
+            }
+        }
+        let dir = std::env::temp_dir().join(format!("verif-c12-persist-{}", std::process::id()));
+        let _ = std::fs::remove_dir_all(&dir);
+        let path = dir.join("counters.db");
+        // an unwritable location models the environment's write failure
+        let target = if b(case, "env.write_ok") { std::fs::create_dir_all(&dir).unwrap(); path.clone() } else { dir.join("missing-subdir").join("counters.db") };
+        let counters = Arc::new(RwLock::new(map));
+        let stats = Arc::new(Mutex::new(CounterStats::default()));
+        let rt = tokio::runtime::Builder::new_current_thread().enable_all().build().unwrap();
+        let sync_ok = rt.block_on(MonotonicCounterSystem::sync_counters(&counters, &target, &stats)).is_ok();
+        let mut out = Map::new();
+        out.insert("sync_ok".into(), json!(sync_ok));
+        {
+            let m = counters.read().unwrap();
+            for (label, uid) in &users {
+                out.insert(format!("mid@{label}"), obs_counter(m.get(uid)));
+            }
+        }
+        match rt.block_on(MonotonicCounterSystem::new(target.clone())) {
+            Ok(sys2) => {
+                out.insert("load_ok".into(), json!(true));
+                let m = sys2.counters.read().unwrap();
+                for (label, uid) in &users {
+                    out.insert(format!("post@{label}"), obs_counter(m.get(uid)));
+                }
+            }
+            Err(_) => {
+                out.insert("load_ok".into(), json!(false));
+                for (label, _) in &users {
+                    out.insert(format!("post@{label}"), Value::Null);
+                }
+            }
+        }
+        let _ = std::fs::remove_dir_all(&dir);
+        Value::Object(out)
+    }
     pub fn cleanup(case: &Value) -> Value {
         let users = [("other", UserId { hash: bytes32(case, "o") }), ("cand", UserId { hash: bytes32(case, "u") })];
         let mut map = HashMap::new();
